@@ -69,7 +69,6 @@ EXPLANATION = (
     'routing the driver executes, on every input).  Tie: streams partmeshb_c20 (np 1,2,3: index 0, -1, nnode+1, nnode+2, '
     '2^31-1, 2^32+1 in first / later position of tet / tri / edge records, counts, truncation, dimension / version / '
     'next-position substitutions, bit flips; C status and, when accepted, the per-rank dump == model) and partmeshb_read '
-<<<<<<< HEAD
     '(np 1..5, valid files).  Declared counts (reader of /repo since 4474557, ref_part_meshb_count_fits modelled as '
     'countFits right after the count is read, on rank 0): partCell_count_fits (accepted => every declared cell / '
     'geometry count is in [0, INT_MAX] and <= bytes left / 4), partCell_loop_progress (chunk >= 1, section_size >= 1 '
@@ -79,10 +78,7 @@ EXPLANATION = (
     '(parseCellsLegacy) diverges / overflows on the witness files of findings/partmeshb-count-2pow32-hang and '
     'findings/partmeshb-count-int-overflow, the reader of today refuses them with REF_FAILURE on 1, 2, 3 ranks; '
     'the stream generates counts 2^31-1, 2^32, 2^32+k, -1, one above what the file holds at np 1,2,3 and replays '
-    'the four witness files.')
-=======
-    '(np 1..5, valid files).  The two *_counterexample theorems of that file are Lean witnesses of findings/partmeshb-'
-    'count-2pow32-hang and findings/partmeshb-count-int-overflow (declared counts are trusted to size the read buffers).  '
+    'the four witness files.  '
     'TEXT MESH READERS, .r8.ugrid, FIELD READERS, MAPBC (work package formats; Refine/Model/Formats.lean, FormatsBin.lean, '
     'FormatsMapbc.lean, Props/C20Formats.lean; harness h_formats = every call in a forked child with alarm, allocator cap and '
     'peak-RSS check; driver formats): the validation logic of ref_import_ugrid (ASCII), _tri, _surf, _fgrid, _su2, _msh, '
@@ -108,7 +104,6 @@ EXPLANATION = (
     'C status and dump == model wherever the model gives a status), c20_formats_robust (the same mutants through '
     'ref_import_by_extension and import + export), c20_fields_mut (.rst / .snap / .plt header fields := {-1,0,1,2^30,2^31-1,10^8,'
     '2^63-1,..}, truncation, bit flips; values of accepted files == independent parse), formats_mapbc.')
->>>>>>> 903a9571bea64b740ec2931dc69ac296b24f5884
 ASSUMPTIONS = [
     'the binary libMeshb readers (.meshb, .solb scalar and metric), the binary UGRID readers (serial, parallel at one '
     'rank), the text mesh readers (.ugrid .tri .surf .fgrid .su2 .msh .grid), .r8.ugrid, .rst / .snap / .plt and .mapbc are '
